@@ -349,6 +349,7 @@ func main() {
 		engineSched(f, res)
 	case "race":
 		res.Exhaustive = false
+		res.Supporting = true
 		res.Rule = "free-running repetitions of the schedule scenarios' bodies under the Go race detector (supporting evidence: the cooperative scheduler's hand-offs hide unsynchronised accesses from it); not exhaustive"
 		n := freeRun(f, res, 300)
 		res.Evaluations, res.States, res.Transitions, res.Distinct = int64(n), int64(n), int64(n), 2
